@@ -6,8 +6,8 @@
    hypotheses yaml_roundtrip and checksum_detects (Section hypotheses).  What those libraries make of damaged TEXT
    is searched by enumeration in the correspondence run (harness/cmd/c18/corrupt.go), which validates
    checksum_detects on every enumerated damage; the theorems below hold for ANY accepted document. *)
-From PV Require Import Base.Prelude Model.LeaseBase Model.Lease Model.LeaseKnown Model.LeaseServe
-  Proofs.Lease Proofs.LeaseNew Proofs.LeaseRestart Proofs.LeaseServe.
+From PV Require Import Base.Prelude Model.LeaseBase Model.Lease Model.LeaseKnown
+  Proofs.Lease Proofs.LeaseNew Proofs.LeaseRestart.
 From Coq Require Import Permutation.
 Open Scope N_scope.
 
@@ -183,68 +183,9 @@ Theorem C18_new_stable : forall c cap i s,
 Proof. exact new_stable. Qed.
 Print Assumptions C18_new_stable.
 
-(* ---------------- keeps serving (PARTIAL: about Model/LeaseServe.v, which transcribes only findOrCreate, taken,
-   the RENEWING branch of handleRequest, handleDiscover's choice of the address and allocIPOffer; the other
-   REQUEST branches, names, transaction ids and reply bytes belong to C11/C12) ---------------- *)
-
-(* The renewal of a restored (file order rs, distinct client ids), unexpired binding is ACKed with the same
-   address, when the client is still on the subnet the lease was restored to (sub_consistent) and nobody else
-   holds the address (taken = false: no other Allocated lease with it, not tracked for another MAC). *)
-Theorem C18_restart_renew_partial : forall cap hosts n1 n2 now rs r,
-  NoDup (map r_cid rs) -> In r rs ->
-  (r_state r =? 2)%Z = true ->
-  avalid (r_ip r) = true -> is_unspec (r_ip r) = false ->
-  (now <= r_expiry r)%Z ->
-  sub_consistent cap n2 r = true ->
-  taken hosts (map (restored cap n2) rs) (restored cap n2 r) (r_ip r) = false ->
-  fst (renew cap hosts n1 n2 now (map (restored cap n2) rs) (r_cid r) (r_mac r) (r_ip r)) = RAck (r_ip r).
-Proof. exact renew_restored. Qed.
-Print Assumptions C18_restart_renew_partial.
-
-(* sub_consistent is needed: a captured client restored outside net2 is NAKed (subnet change) *)
-Theorem C18_restart_renew_subnet_change :
-  exists cap n1 n2 r,
-    newSubnet ex_net1 = Ok n1 /\ newSubnet ex_net2 = Ok n2 /\
-    (r_state r =? 2)%Z = true /\ sub_consistent cap n2 r = false /\
-    fst (renew cap (fun _ => None) n1 n2 0%Z (map (restored cap n2) [r]) (r_cid r) (r_mac r) (r_ip r)) = RNak.
-Proof. exact renew_restored_subnet_change. Qed.
-Print Assumptions C18_restart_renew_subnet_change.
-
-Example C18_restart_renew_nonvacuous :
-  exists n1 n2, newSubnet ex_net1 = Ok n1 /\ newSubnet ex_net2 = Ok n2 /\
-    sub_consistent (fun _ => false) n2 ex_rec = true /\
-    taken (fun _ => None) (map (restored (fun _ => false) n2) [ex_rec]) (restored (fun _ => false) n2 ex_rec) (r_ip ex_rec) = false /\
-    fst (renew (fun _ => false) (fun _ => None) n1 n2 500%Z (map (restored (fun _ => false) n2) [ex_rec])
-               (r_cid ex_rec) (r_mac ex_rec) (r_ip ex_rec)) = RAck (r_ip ex_rec).
-Proof. exact renew_restored_nonvacuous. Qed.
-Print Assumptions C18_restart_renew_nonvacuous.
-
-(* Whatever the map iteration order, capture state, session host table, nextIP, fuel and requested address: a
-   DISCOVER of client cid is never answered with a valid address that the table holds only in non-free leases
-   of other clients. *)
-Theorem C18_no_reoffer_partial : forall fuel ordf cap hosts n1 n2 next now t cid mac reqIP a t',
-  (forall x, Permutation (ordf x) x) ->
-  avalid a = true ->
-  held_by_others t cid a ->
-  discover fuel ordf cap hosts n1 n2 next now t cid mac reqIP = Ok (ROffer a, t') -> False.
-Proof. exact discover_not_held. Qed.
-Print Assumptions C18_no_reoffer_partial.
-
-(* every address of a restored table is so held, for every client that is not one of its holders *)
-Theorem C18_restored_addresses_held : forall cap n2 rs cid r,
-  (forall x, In x rs -> (r_state x =? 2)%Z = true) ->
-  In r rs ->
-  (forall x, In x rs -> r_ip x = r_ip r -> r_cid x <> cid) ->
-  held_by_others (map (restored cap n2) rs) cid (r_ip r).
-Proof. exact restored_held. Qed.
-Print Assumptions C18_restored_addresses_held.
-
-Example C18_no_reoffer_nonvacuous :
-  exists n1 n2 t',
-    newSubnet ex_net1 = Ok n1 /\ newSubnet ex_net2 = Ok n2 /\
-    held_by_others (map (restored (fun _ => false) n2) [ex_rec]) [9; 9] (r_ip ex_rec) /\
-    discover 600 (fun x => x) (fun _ => false) (fun _ => None) n1 n2 AInv 0%Z
-             (map (restored (fun _ => false) n2) [ex_rec]) [9; 9] [2; 0; 0; 0; 0; 9] (r_ip ex_rec)
-    = Ok (ROffer (A4 3232235521), t').
-Proof. exact discover_not_held_nonvacuous. Qed.
-Print Assumptions C18_no_reoffer_nonvacuous.
+(* ---------------- keeps serving ----------------
+   The full-strength statements are in Properties/C18_glue.v, about the DHCP cluster's complete [step]:
+   C18_keeps_serving_renew and C18_keeps_serving_no_reoffer (at ANY state).  The round-2 statements about the partial
+   transcription Model/LeaseServe.v (C18_restart_renew_partial, C18_no_reoffer_partial) are superseded by them and were
+   retired in round 7; Model/LeaseServe.v remains the model side of the dispatch kinds renew/offer, and
+   Proofs/LeaseServe.v keeps the lemmas (renew_restored, discover_not_held) as a cross-check of that transcription. *)
